@@ -62,16 +62,16 @@ class History(object):
         return {'v0': self.v0, 'steps': self.steps}
 
 
-def canonical_state(j=None):
-    """Canonical key of the current default database (+ code version)."""
-    bk = O.bookkeeping_dump('default')
+def canonical_state(j=None, alias='default'):
+    """Canonical key of the current database (+ code version)."""
+    bk = O.bookkeeping_dump(alias)
     evs = sorted((a, l) for (a, l, _v) in (bk['evolutions'] or []))
     sig = None
     if bk['versions']:
         sig = bk['versions'][-1][1]
-    return S.canon([j, jsonable(O.schema_dump('default', names=True,
+    return S.canon([j, jsonable(O.schema_dump(alias, names=True,
                                               skip=SKIP_TABLES)),
-                    jsonable(O.row_dump('default', skip=SKIP_TABLES)),
+                    jsonable(O.row_dump(alias, skip=SKIP_TABLES)),
                     evs, sig, bk['migrations']])
 
 
